@@ -165,6 +165,69 @@ def _header_line_first(t, op, n_field):
         return False
 
 
+def _view_sequence(src, op, opts, single):
+    """copy, copy, cut, then copy / cut / len on the SAME view object. -> (class, what) or None"""
+    from fst import FST
+    V = _mk(src)
+    t = list(V.walk(True))[op[1]]
+    try:
+        view = getattr(t, op[2])
+        v = view.at(op[3], force_view=True) if single else view[op[3]:op[4]]
+        n0 = len(v)
+    except Exception:
+        return None
+    src0, dump0 = V.src, util.dump_pos(V.a)
+    cls0 = t.a.__class__
+    try:
+        c1 = v.copy(**opts)
+        c2 = v.copy(**opts)
+    except Exception:
+        return None
+    if len(v) != n0:
+        return ('view-changed-by-copy', f'has length {len(v)} after copy(), {n0} before')
+    if V.src != src0 or util.dump_pos(V.a) != dump0:
+        return ('source-changed', 'copy() through the view changed the tree read from')
+    s1, s2 = getattr(c1, 'src', c1), getattr(c2, 'src', c2)
+    if s1 != s2:
+        return ('second-copy-differs', f'two copies through the same view differ: {s1!r} then {s2!r}')
+    try:
+        v.cut(**opts)
+    except Exception:
+        return None
+    src1, dump1 = V.src, util.dump_pos(V.a)
+    if t.a.__class__ is not cls0:
+        return None            # norm collapsed the base node into its last element: the view has no base any more
+    try:
+        n1 = len(v)
+    except Exception as e:
+        return ('spent-view', f'len() of the view after its cut raised {e!r}')
+    if n1 != 0:
+        return ('spent-view', f'still has length {n1} after its contents were cut (remainder {src1[:80]!r})')
+    again = None
+    try:
+        again = v.copy(**opts)
+    except Exception:
+        pass
+    if isinstance(again, FST):
+        el = ops.result_elems(again.a, t.a, op[2])
+        if isinstance(el, list) and el and again.src.replace(' ', '') not in ('{*()}', 'set()'):     # normalised empty set
+            return ('spent-view', f'copy() of the spent view returns live elements: {again.src!r}')
+    try:
+        v.cut(**opts)
+    except Exception:
+        pass
+    if V.src != src1 or util.dump_pos(V.a) != dump1:
+        try:
+            same = ast.dump(ast.parse(V.src)) == ast.dump(ast.parse(src1)) and ops.token_bag(V.src) == ops.token_bag(src1)
+        except SyntaxError:
+            same = False
+        if same:        # nothing was taken, but the (empty) cut rewrote blanks: a different, milder defect (C07-F21)
+            return ('empty-cut-touches-source', f'a cut of nothing through the spent view changed the source text: '
+                    + util.first_diff(V.src, src1))
+        return ('spent-view', f'using the spent view again changed the tree: {src1[:80]!r} -> {V.src[:80]!r}')
+    return None
+
+
 def _links(root):
     """every FST link of the tree: node class, pfield, parent AST identity, a.f.a round trip, root pointer"""
     out = []
@@ -447,6 +510,15 @@ def run_op(src, op, opts):
             out['tally'].append(('remainder', 'pos==parse'))
     else:
         out['tally'].append(('remainder', 'not-compared'))
+    # (4c) the view object itself: a copy leaves the view as it was; after a cut the view is spent (empty) and using it again
+    # (copy, cut, len) neither returns live elements nor touches the tree
+    if op[0] == 'slice' and op[2] is not None:
+        for single in ((False, True) if op[4] - op[3] == 1 else (False,)):
+            what = _view_sequence(src, op, opts, single)
+            if what:
+                lab = '*' if what[0] == 'empty-cut-touches-source' else fld
+                out['fails'].append((f'C07|view|{lab}|{what[0]}', ('single-item view ' if single else 'slice view ') + what[1]))
+            out['tally'].append(('view_sequence', 'single' if single else 'slice'))
     # (5) tokens and comments conserved
     b0 = ops.token_bag(src0)
     b1 = ops.token_bag(B.src)
